@@ -4,6 +4,8 @@ HOOKS=off
 OVL=${VERIF_OVERLAY:+-overlay=$VERIF_OVERLAY}
 build_harness() { # build_harness <out> [go build flags...]
   local out=$1; shift
+  # VERIF_HARNESS_RACE=1: the monitors themselves under the race detector (a check of the machinery, not of /repo)
+  if [ -n "${VERIF_HARNESS_RACE:-}" ]; then set -- -race "$@"; fi
   if (cd "$VERIF_ROOT/harness" && GOWORK=off "$GO_BIN" build $OVL -tags verif "$@" -o "$out" ./cmd/check) 2>"$S/build.err"; then
     HOOKS=on; return 0
   fi
